@@ -26,7 +26,8 @@ Section RadialRec.
   Hypothesis HFa : Fa (fun u => 0 <= u).
 
   Variable T : nat -> nat -> Z -> R.
-  Hypothesis HT : forall i j k, is_RInt_gen (F i j k) Fa (Rbar_locally p_infty) (T i j k).
+  (* k >= 1: the integrand behaves like r^(k+i+j) at 0, so that the integrals exist exactly on a domain of this kind *)
+  Hypothesis HT : forall i j k, (1 <= k)%Z -> is_RInt_gen (F i j k) Fa (Rbar_locally p_infty) (T i j k).
 
   (* eventually (u, v) in Fa x +inf : every point strictly between u and v is positive *)
   Lemma between_pos : filter_prod Fa (Rbar_locally p_infty) (fun ab => forall r, Rmin (fst ab) (snd ab) < r < Rmax (fst ab) (snd ab) -> 0 < r).
@@ -45,16 +46,16 @@ Section RadialRec.
     field. repeat split; try assumption; intros E; rewrite E in Hy; lra.
   Qed.
 
-  Theorem T_rec_j i j k :
+  Theorem T_rec_j i j k : (2 <= k)%Z ->
     T i (S (S j)) k = T i j k - (2 * INR j + 3) / (2 * (b * B)) * T i (S j) (k - 1).
   Proof.
-    pose proof (HT i (S (S j)) k) as H2.
+    intros Hk. pose proof (HT i (S (S j)) k ltac:(lia)) as H2.
     assert (is_RInt_gen (F i (S (S j)) k) Fa (Rbar_locally p_infty)
               (T i j k - (2 * INR j + 3) / (2 * (b * B)) * T i (S j) (k - 1))) as H3.
     { apply is_RInt_gen_ext with (f := fun r => minus (F i j k r) (scal ((2 * INR j + 3) / (2 * (b * B))) (F i (S j) (k - 1) r))).
       - pose proof between_pos as BP. revert BP. apply filter_imp. intros ab Hab r Hr. rewrite F_rec by (apply Hab; exact Hr). reflexivity.
-      - apply (is_RInt_gen_minus (V := R_CompleteNormedModule)); [apply HT|].
-        apply (is_RInt_gen_scal (V := R_CompleteNormedModule)). apply HT. }
+      - apply (is_RInt_gen_minus (V := R_CompleteNormedModule)); [apply HT; lia|].
+        apply (is_RInt_gen_scal (V := R_CompleteNormedModule)). apply HT. lia. }
     rewrite <- (is_RInt_gen_unique _ _ H2). rewrite <- (is_RInt_gen_unique _ _ H3). reflexivity.
   Qed.
 
@@ -169,13 +170,13 @@ Section RadialRec.
   Qed.
 
   (* the integration by parts *)
-  Theorem T_rec_i i j k :
+  Theorem T_rec_i i j k : (2 <= k)%Z ->
     Fa (fun u => 0 < u) ->
     filterlim (H i j k) Fa (locally 0) -> filterlim (H i j k) (Rbar_locally p_infty) (locally 0) ->
     2 * x * T (S i) (S j) k
     = IZR (2 + Z.of_nat j - Z.of_nat i - k) * T i (S j) (k - 1) + 2 * p * T i (S j) (k + 1) - 2 * y * T i j k.
   Proof.
-    intros HFpos L0 Linf.
+    intros Hk HFpos L0 Linf.
     assert (filter_prod Fa (Rbar_locally p_infty) (fun ab => forall r, Rmin (fst ab) (snd ab) <= r <= Rmax (fst ab) (snd ab) -> 0 < r)) as BP.
     { exists (fun u => 0 < u) (fun v => 0 < v); [exact HFpos | exists 0; intros v Hv; exact Hv |].
       intros u v Hu Hv r. cbn [fst snd]. intros [Hr _]. unfold Rmin in Hr. destruct (Rle_dec u v); lra. }
@@ -195,7 +196,7 @@ Section RadialRec.
     { apply (is_RInt_gen_ext (Derive (H i j k))); [|exact I1].
       pose proof between_pos as BP2. revert BP2. apply filter_imp. intros ab Hab r Hr. apply DG. apply Hab. exact Hr. }
     pose proof (is_RInt_gen_lin4 _ _ _ _ (IZR (k + Z.of_nat i - Z.of_nat j - 2)) (2 * p) (2 * x) (2 * y) _ _ _ _
-                  (HT i (S j) (k - 1)) (HT i (S j) (k + 1)) (HT (S i) (S j) k) (HT i j k)) as I3.
+                  (HT i (S j) (k - 1) ltac:(lia)) (HT i (S j) (k + 1) ltac:(lia)) (HT (S i) (S j) k ltac:(lia)) (HT i j k ltac:(lia))) as I3.
     change (is_RInt_gen (G i j k) Fa (Rbar_locally p_infty)
               (IZR (k + Z.of_nat i - Z.of_nat j - 2) * T i (S j) (k - 1) - 2 * p * T i (S j) (k + 1) + 2 * x * T (S i) (S j) k + 2 * y * T i j k)) in I3.
     pose proof (is_RInt_gen_unique _ _ I2) as U2. pose proof (is_RInt_gen_unique _ _ I3) as U3.
@@ -205,24 +206,24 @@ Section RadialRec.
   (* the two recurrences in the form RadialTable.case_value takes them (indices in Z, T(i, j, k) with i = l1, j = l2, k = N) *)
   Definition Tz (i j k : Z) : R := T (Z.to_nat i) (Z.to_nat j) k.
 
-  Corollary SRj_from_integrals : forall j k, (2 <= j)%Z ->
+  Corollary SRj_from_integrals : forall j k, (2 <= j)%Z -> (2 <= k)%Z ->
     Tz 0 j k = Tz 0 (j - 2) k - IZR (2 * j - 1) / (2 * y) * Tz 0 (j - 1) (k - 1).
   Proof.
-    intros j k Hj. unfold Tz.
+    intros j k Hj Hk. unfold Tz.
     replace (Z.to_nat j) with (S (S (Z.to_nat (j - 2)))) by lia.
     replace (Z.to_nat (j - 1)) with (S (Z.to_nat (j - 2))) by lia.
-    rewrite T_rec_j. unfold y. f_equal. f_equal. f_equal.
+    rewrite T_rec_j by exact Hk. unfold y. f_equal. f_equal. f_equal.
     rewrite INR_IZR_INZ, Z2Nat.id by lia. rewrite <- mult_IZR, <- plus_IZR. f_equal. lia.
   Qed.
 
-  Corollary SRi_from_integrals : forall i j k, (1 <= i)%Z -> (1 <= j)%Z ->
+  Corollary SRi_from_integrals : forall i j k, (1 <= i)%Z -> (1 <= j)%Z -> (2 <= k)%Z ->
     Fa (fun u => 0 < u) ->
     filterlim (H (Z.to_nat (i - 1)) (Z.to_nat (j - 1)) k) Fa (locally 0) ->
     filterlim (H (Z.to_nat (i - 1)) (Z.to_nat (j - 1)) k) (Rbar_locally p_infty) (locally 0) ->
     Tz i j k = IZR (2 + j - i - k) / (2 * x) * Tz (i - 1) j (k - 1) - y / x * Tz (i - 1) (j - 1) k + p / x * Tz (i - 1) j (k + 1).
   Proof.
-    intros i j k Hi Hj HF L0 Li. unfold Tz.
-    pose proof (T_rec_i (Z.to_nat (i - 1)) (Z.to_nat (j - 1)) k HF L0 Li) as E.
+    intros i j k Hi Hj Hk HF L0 Li. unfold Tz.
+    pose proof (T_rec_i (Z.to_nat (i - 1)) (Z.to_nat (j - 1)) k Hk HF L0 Li) as E.
     replace (S (Z.to_nat (i - 1))) with (Z.to_nat i) in E by lia.
     replace (S (Z.to_nat (j - 1))) with (Z.to_nat j) in E by lia.
     rewrite !Z2Nat.id in E by lia.
